@@ -275,6 +275,49 @@ Section CryptoProofs.
     - pose proof (opts_key_in_force (fstate_after (cs_f cs) pre1) (Some e)) as P. rewrite Eo in P.
       destruct (key_in_force (fstate_after (cs_f cs) pre1) (Some e)); [contradiction|reflexivity].
   Qed.
+
+  (* ---------- one event rotated part way through (from its own Tags() callback, or by any rotation scheduled there) ----------
+     schedule: the head of Process, the values [pre], ONE rotation, the values [post] of the same event.  Every value is the one
+     selected under the options the event fixed at its start; [pre] in the filter state the event started in, [post] in the
+     rotated state. *)
+  Definition vals_of (tid : N) (vals : list (cop * bstr)) : list (action K) := map (fun v => AVal K tid (fst v) (snd v)) vals.
+
+  Lemma crun_vals tid eo : forall vals cs, lookup tid (cs_thr cs) = Some eo ->
+    crun cs (vals_of tid vals) = (cs, map (fun v => match eo with Some o => value_out (cs_f cs) o (fst v) (snd v) | None => None end) vals).
+  Proof.
+    induction vals as [|[c m] r IH]; intros cs Hl; [reflexivity|].
+    cbn [vals_of map Crypto.crun Crypto.cstep fst snd]. rewrite Hl. fold (vals_of tid r). rewrite (IH cs Hl). destruct eo; reflexivity.
+  Qed.
+
+  Theorem callback_schedule st tid ewi pre w s i post :
+    snd (crun {| cs_f := st; cs_thr := [] |} (AStart K tid ewi :: vals_of tid pre ++ ARot K w s i :: vals_of tid post)) =
+      None :: map (fun v => match event_opts st ewi with Some o => value_out st o (fst v) (snd v) | None => None end) pre
+      ++ None :: map (fun v => match event_opts st ewi with Some o => value_out (rotate K st w s i) o (fst v) (snd v) | None => None end) post.
+  Proof.
+    cbn [Crypto.crun Crypto.cstep cs_f cs_thr].
+    set (cs1 := {| cs_f := st; cs_thr := [(tid, event_opts st ewi)] |}).
+    assert (Hl : forall f, lookup tid (cs_thr {| cs_f := f; cs_thr := [(tid, event_opts st ewi)] |}) = Some (event_opts st ewi)).
+    { intros f. cbn [cs_thr Crypto.lookup]. rewrite N.eqb_refl. reflexivity. }
+    rewrite crun_app, (crun_vals tid _ pre cs1 (Hl st)). cbn [fst snd Crypto.crun Crypto.cstep cs_f cs_thr].
+    subst cs1. cbn [cs_f cs_thr]. rewrite (crun_vals tid _ post _ (Hl (rotate K st w s i))). cbn [fst snd cs_f]. reflexivity.
+  Qed.
+
+  (* an event WITH wrapper info selects, in every later filter state, the key in force at its start *)
+  Lemma started_event_triple st e o st' :
+    event_opts st (Some e) = Some o ->
+    match sel_wrap K st' o with Some w' => Some (w', sel_salt K st' o, sel_info K st' o) | None => None end = key_in_force st (Some e).
+  Proof.
+    destruct e as [[id s] i]. unfold Crypto.event_opts, Crypto.key_in_force. destruct (f_wrap st) as [w|]; [|discriminate].
+    destruct id as [|b r]; [discriminate|]. intros H. injection H as <-. unfold sel_wrap, sel_salt, sel_info. cbn [o_wrap o_salt o_info orelse nonnil]. reflexivity.
+  Qed.
+  (* an event without selects the triple of the filter state the value is produced in *)
+  Lemma plain_event_triple st' :
+    match sel_wrap K st' (no_opts K) with Some w' => Some (w', sel_salt K st' (no_opts K), sel_info K st' (no_opts K)) | None => None end = key_in_force st' None.
+  Proof. unfold sel_wrap, sel_salt, sel_info, Crypto.key_in_force. cbn [no_opts o_wrap o_salt o_info orelse]. destruct (f_wrap st'); reflexivity. Qed.
+  (* and the value produced is the value under the selected triple *)
+  Lemma selected_value st o c m :
+    value_out st o c m = match sel_wrap K st o with Some w => Some (value_under (w, sel_salt K st o, sel_info K st o) c m) | None => None end.
+  Proof. unfold Crypto.value_out, Crypto.value_under. destruct (sel_wrap K st o); [destruct c|]; reflexivity. Qed.
 End CryptoProofs.
 
 (* ---------- a concrete instance: non-vacuity, and the one mixture the interleaving model allows ---------- *)
